@@ -4,6 +4,8 @@ CONSTANTS
   Lens <- Lens_C08
   Dts = {1}
   T0 = 1000
+  MaxSw = 0
+  ResetCfgs <- NoReset
   MaxRecs = 4
   MaxRuns = 2
   MaxTrig = 0
